@@ -224,6 +224,14 @@ pub fn build(case: &Case) -> Scenario {
     scn.opts.inflight = case.inflight;
     scn.opts.manual_acks = case.manual;
     scn.opts.channel_cap = 1024;
+    // a third of the cases pause between two replayed requests (MqttOptions::set_pending_throttle), so that
+    // broker traffic arrives while the next pending request is being taken; derived from the case itself so
+    // that a stored case replays identically
+    scn.opts.pending_throttle_us = match crate::common::fnv(format!("{}/{}/{}", case.name, case.inflight, case.steps.len()).as_bytes()) % 6 {
+        0 => 300,
+        1 => 400_000,
+        _ => 0,
+    };
     scn.snap = SnapLevel::Full;
     scn.conns.clear();
     for c in &case.conns {
